@@ -444,7 +444,39 @@ func checkC14Hist(t *Toks) string {
 			return fail("history-reencode", x)
 		}
 	}
+	for _, s := range []string{s1, s2} {
+		if x := guard(func() string { return c14KeyReuse(s) }); x != "" {
+			return fail("history-key-reuse", x)
+		}
+	}
 	return "OK"
+}
+
+// the blinding key of a decoded blech32 address used again to encode another program (what a wallet does when it
+// derives a second address for the same key): the first decoded object must still encode to the string it came from
+// (seeded change C14-q: ToBlech32 appending the program onto the caller's key slice)
+func c14KeyReuse(s string) string {
+	b, err := address.FromBlech32(s)
+	if err != nil || b == nil {
+		return ""
+	}
+	first, err := address.ToBlech32(b)
+	if err != nil {
+		return ""
+	}
+	prog := make([]byte, len(b.Program))
+	for i := range prog {
+		prog[i] = ^b.Program[i]
+	}
+	_, _ = address.ToBlech32(&address.Blech32{Prefix: b.Prefix, Version: b.Version, PublicKey: b.PublicKey, Program: prog})
+	again, err := address.ToBlech32(b)
+	if err != nil {
+		return "decoded-address-no-longer-encodes"
+	}
+	if again != first {
+		return "decoded-address-encodes-differently"
+	}
+	return ""
 }
 
 func firstDiffKey(a, b string) string {
